@@ -30,6 +30,7 @@ structure TyFlags where
   trivSwap : Bool := true
   eqMemcmp : Bool := true
   lexMemcmp : Bool := true
+  signed : Bool := false        -- signed integer type: `<` on values is not `<` on the unsigned representation
   deriving DecidableEq, Repr, Inhabited
 
 structure Param where
